@@ -69,13 +69,14 @@ func main() {
 		os.Exit(2)
 	}
 	src, dst := os.Args[1], os.Args[2]
+	keepTests := os.Getenv("INSTRUMENT_KEEP_TESTS") == "1" // self-test: run the repository's own suite on the instrumented copy
 	err := filepath.Walk(src, func(p string, info os.FileInfo, err error) error {
 		if err != nil {
 			return err
 		}
 		rel, _ := filepath.Rel(src, p)
 		if info.IsDir() {
-			if info.Name() == ".git" || rel == "examples" || rel == "test" {
+			if info.Name() == ".git" || rel == "examples" || (rel == "test" && !keepTests) {
 				return filepath.SkipDir
 			}
 			return os.MkdirAll(filepath.Join(dst, rel), 0o755)
@@ -88,7 +89,7 @@ func main() {
 			!strings.HasPrefix(rel, "internal/testutil") && !strings.HasPrefix(rel, "internal/policytesting") {
 			return instrumentFile(p, rel, out)
 		}
-		if strings.HasSuffix(p, "_test.go") {
+		if strings.HasSuffix(p, "_test.go") && !keepTests {
 			return nil
 		}
 		return copyFile(p, out)
